@@ -981,7 +981,8 @@ def invariant(w):
             bad("file:missing", f"{name} vanished / was never written")
             continue
         for fail, desc, key in compare_db(data, exp, mat):
-            bad(f"file:{fail}:{situation(w, fail, key)}", f"{name} = {core.short(data, 120)}: {desc}")
+            # the export of the current state was just verified, so this is a problem of the save path
+            bad("file:content_mismatch", f"{name} = {core.short(data, 120)} is not the state at the last save ({fail}): {desc}")
     if out:
         return out
     # (2) inspection methods
@@ -1254,7 +1255,7 @@ def eval_name(case):
     A = E["A"]
     cls, meth, field, enc, args = case["cls"], case["method"], case["field"], case["enc"], case["args"]
     text, verdict, ncls, grp = case["name"], case["verdict"], case["name_class"], case["name_group"]
-    mgrp = "set" if "set_" in meth else meth
+    mgrp = "set" if "set_" in meth else "other"
     cfg = {"cls": cls, "enc": enc, "seed": case.get("seed", 0)}
     mat = Material.of(cfg)
     out = []
@@ -1352,12 +1353,12 @@ def eval_name(case):
                         f"{meth} accepted the {field} name {core.short(name, 40)} ({ncls}) but {'; '.join(problems[:2])}"))
     elif meth in ("check_password", "get_hash"):
         if r[1] is not None:
-            out.append((f"{comp}|{meth}:{field}:found_unknown", f"{meth} returned {r[1]!r} for the unknown {field} {core.short(name, 40)}"))
+            out.append((f"{comp}|other:{field}:found_unknown", f"{meth} returned {r[1]!r} for the unknown {field} {core.short(name, 40)}"))
     elif meth == "delete":
         if r[1] is not False:
-            out.append((f"{comp}|{meth}:{field}:deleted_unknown", f"delete returned {r[1]!r} for an unknown {field}"))
+            out.append((f"{comp}|other:{field}:deleted_unknown", f"delete returned {r[1]!r} for an unknown {field}"))
     if meth in ("check_password", "get_hash", "delete", "users", "delete_realm", "default_realm+users") and after != (("ret", before[0]), before[1]):
-        out.append((f"{comp}|{meth}:{field}:changed", f"{meth} on an unknown {field} changed the database"))
+        out.append((f"{comp}|other:{field}:changed", f"{meth} on an unknown {field} changed the database"))
     return out
 
 
